@@ -201,11 +201,14 @@ func (s *Store) finishSnapshot(snap *jobSnapshot) {
 	s.lastPublication = done
 
 	go func() {
-		defer close(done)
 		if previous != nil {
 			<-previous
 		}
 		uri, err := s.finishSnapshotAsync(snap)
+
+		// The next publication may start whether or not anybody listens to the
+		// outcome of this one.
+		close(done)
 		if err != nil {
 			s.errChan <- err
 			return
